@@ -1,8 +1,146 @@
+(** C12 — Time integration adapters conserve the integral.
+    Model: FV.TimeInteg (TimeIntegrationAdapter._source_updated/_get_data, AvgOverTime._interpolate,
+    SumOverTime._interpolate of src/finam/adapters/time_integration.py; eviction from time.py).
+    This file contains only statements; proofs are in FVP.TimeInteg_proofs.
+
+    [run_i true c init_i ops] = the pull results of the real (evicting) adapter with configuration
+    [c] on the script [ops]; [spec_run_i c [] None ops] = for every pull at [p1], with [p0] the
+    previous pull (the first publication time before the first pull), evaluated on the FULL history
+    published so far ([spec_pull_i]):
+      p0 < p1, sum      : [integral step per_time H p0 p1]  (per_time: value x seconds; else the
+                          sum of the relative weights, no time factor)
+      p0 < p1, average  : [integral step true H p0 p1 / seconds (p1 - p0)]
+      initial pull      : the first published value (x initial_interval for per-time sums)
+    [integral] is the sum over consecutive publications of closed-form areas
+    [antider (dcl p1) - antider (dcl p0)] under the linear / step interpolant ([TimeInteg.seg_area]).
+    [valid_i [] None ops]: publication times strictly increase; every in-range pull is strictly later
+    than the previous one (or is the initial pull at the first publication time); out-of-range
+    pulls may occur anywhere.  Results are compared with [==] on Q ([res_equiv]). *)
 From Coq Require Import List ZArith QArith Bool.
 From FV Require Import Base TimeInterp TimeInteg.
-From FVP Require Import TimeInteg_proofs.
+From FVP Require Import TimeInterp_proofs TimeInteg_proofs.
 Import ListNotations.
 Open Scope Z_scope.
-Theorem C12_tmp : forall ev c t, snd (get_data_i ev c init_i t) = IErrNoData.
-Proof. exact tmp_nodata. Qed.
-Print Assumptions C12_tmp.
+
+Theorem C12_sum_is_integral : forall (step : option Q) (per_time : bool) (initial_interval : Z) ops,
+  let c := mk_cfg false step per_time initial_interval in
+  valid_i [] None ops ->
+  Forall2 res_equiv (run_i true c init_i ops) (spec_run_i c [] None ops).
+Proof. intros step per_time ii ops c. exact (adapter_is_integral true c ops). Qed.
+
+Theorem C12_avg : forall (step : option Q) ops,
+  let c := mk_cfg true step false 0 in
+  valid_i [] None ops ->
+  Forall2 res_equiv (run_i true c init_i ops) (spec_run_i c [] None ops).
+Proof. intros step ops c. exact (adapter_is_integral true c ops). Qed.
+
+(** The integral is additive over every split point (any p0, p1, p2, any history, linear and
+    every step position, per-time and absolute): the total over a period does not depend on how it
+    is partitioned. *)
+Theorem C12_conservation : forall (step : option Q) (per_time : bool) H p0 p1 p2,
+  (integral step per_time H p0 p1 + integral step per_time H p1 p2 == integral step per_time H p0 p2)%Q.
+Proof. exact integral_additive. Qed.
+
+(** ... and so do the deliveries of the sum adapter itself: after any valid script with lower bound
+    [p], pulling at [t1] and then at [t2] delivers in total what one pull at [t2] delivers
+    (by induction: any partition of [p, t2] into consumer steps). *)
+Theorem C12_conservation_adapter : forall (step : option Q) (per_time : bool) (initial_interval : Z) ops p t1 t2,
+  let c := mk_cfg false step per_time initial_interval in
+  valid_i [] None ops -> bound_after [] None ops = Some p ->
+  in_range (pubs [] ops) t1 = true -> in_range (pubs [] ops) t2 = true ->
+  p < t1 -> t1 < t2 ->
+  let s := final_i true c init_i ops in
+  exists a b d,
+    snd (get_data_i true c s t1) = IOk a /\
+    snd (get_data_i true c (fst (get_data_i true c s t1)) t2) = IOk b /\
+    snd (get_data_i true c s t2) = IOk d /\
+    (a + b == d)%Q.
+Proof. intros step per_time ii ops p t1 t2 c. exact (conservation_split true c ops p t1 t2 eq_refl). Qed.
+
+(** Publications later than the upper bound do not change an integral (so "the history so far"
+    and the final history give the same value). *)
+Theorem C12_later_publications_irrelevant : forall step per_time p0 p1 H t0 v0 e,
+  inc_from t0 (H ++ [e]) -> p0 <= last_time t0 H -> p1 <= last_time t0 H ->
+  (integral step per_time (((t0, v0) :: H) ++ [e]) p0 p1 == integral step per_time ((t0, v0) :: H) p0 p1)%Q.
+Proof. intros step per_time p0 p1. exact (integral_extend step per_time p0 p1). Qed.
+
+(** Every average lies within the range of the values that contribute to it: if [m <= v <= M] for
+    both end values of every publication interval that meets (p0, p1), then [m <= average <= M]. *)
+Theorem C12_avg_in_range : forall (step : option Q) H p0 p1 (m M : Q),
+  increasing H -> in_range H p0 = true -> in_range H p1 = true -> p0 < p1 ->
+  bounded_contrib m M H p0 p1 ->
+  (m <= integral step true H p0 p1 / secs (p1 - p0) <= M)%Q.
+Proof. exact avg_in_range. Qed.
+
+(** The closed-form areas are the integral of the interpolant: within one publication interval
+    the linear area is the trapezoid under the straight line, the step area is the rectangle under
+    the older value up to the step position and under the newer value behind it. *)
+Theorem C12_area_linear : forall t0 v0 t1 v1 x y,
+  t0 < t1 -> t0 <= x -> x <= y -> y <= t1 ->
+  let f := fun z => (v0 + (inject_Z (z - t0) / inject_Z (t1 - t0)) * (v1 - v0))%Q in
+  (seg_area None (t0, v0) (t1, v1) x y * secs (t1 - t0) == secs (y - x) * ((f x + f y) * (1 # 2)))%Q.
+Proof. exact area_linear. Qed.
+
+Theorem C12_area_step : forall s t0 v0 t1 v1 x y,
+  t0 < t1 -> t0 <= x -> x <= y -> y <= t1 ->
+  let pos := fun z => (inject_Z (z - t0) / inject_Z (t1 - t0))%Q in
+  ((pos y <= s)%Q -> (seg_area (Some s) (t0, v0) (t1, v1) x y * secs (t1 - t0) == secs (y - x) * v0)%Q) /\
+  ((s <= pos x)%Q -> (seg_area (Some s) (t0, v0) (t1, v1) x y * secs (t1 - t0) == secs (y - x) * v1)%Q).
+Proof. exact area_step. Qed.
+
+(** Discarding old buffer entries never changes a result. *)
+Theorem C12_eviction_invisible : forall c ops,
+  valid_i [] None ops -> Forall2 res_equiv (run_i true c init_i ops) (run_i false c init_i ops).
+Proof. exact eviction_invisible_i. Qed.
+
+(** ** Non-vacuity: publications at 0s, 4s, 12s, 13s; initial pull, pulls finer and coarser than the
+    source steps, across publications, an out-of-range pull in the middle, evictions. *)
+Definition ex_ops : list op :=
+  [Pull 1; Push 0 (1#1); Pull 0; Push 4000000 (3#1); Pull 2000000; Pull 9000000; Pull 4000000;
+   Push 12000000 (-1#1); Push 13000000 (5#1); Pull 5000000; Pull 12500000; Pull 13000000].
+
+Definition ires_eqb (a b : ires) : bool :=
+  match a, b with
+  | IOk x, IOk y => Qeq_bool x y
+  | IErrTime, IErrTime => true
+  | IErrNoData, IErrNoData => true
+  | _, _ => false
+  end.
+
+Example C12_nonvacuous_valid :
+  valid_i [] None ex_ops /\ bound_after [] None ex_ops = Some 13000000
+  /\ final_i true (mk_cfg true None false 0) init_i ex_ops
+     = mk_ist [(12000000, -1#1); (13000000, 5#1)] (Some 13000000).
+Proof. split; [vm_compute; intuition discriminate|]. split; vm_compute; reflexivity. Qed.
+
+Example C12_nonvacuous_results :
+  (* per-time linear sum, initial_interval 1 s: total 3+5+11/4+11/2+7/4 = 18 = integral over [0s,13s] *)
+  list_eqb ires_eqb (run_i true (mk_cfg false None true 1000000) init_i ex_ops)
+    [IErrNoData; IOk 1; IOk 3; IErrTime; IOk 5; IOk (11#4); IOk (11#2); IOk (7#4)] = true
+  (* absolute step sum, step position 1/4 *)
+  /\ list_eqb ires_eqb (run_i true (mk_cfg false (Some (1#4)) false 0) init_i ex_ops)
+    [IErrNoData; IOk 1; IOk 1; IErrTime; IOk (3#2); IOk (3#8); IOk (5#8); IOk (5#2)] = true
+  (* linear average and step average with step position 1/2 *)
+  /\ list_eqb ires_eqb (run_i true (mk_cfg true None false 0) init_i ex_ops)
+    [IErrNoData; IOk 1; IOk (3#2); IErrTime; IOk (5#2); IOk (11#4); IOk (11#15); IOk (7#2)] = true
+  /\ list_eqb ires_eqb (run_i true (mk_cfg true (Some (1#2)) false 0) init_i ex_ops)
+    [IErrNoData; IOk 1; IOk 1; IErrTime; IOk 3; IOk 3; IOk (3#5); IOk 5] = true.
+Proof. vm_compute. auto. Qed.
+
+Example C12_nonvacuous_split :
+  let ops := [Push 0 (1#1); Pull 0; Push 4000000 (3#1); Push 12000000 (-1#1)] in
+  valid_i [] None ops /\ bound_after [] None ops = Some 0
+  /\ in_range (pubs [] ops) 3000000 = true /\ in_range (pubs [] ops) 7000000 = true
+  /\ bounded_contrib (-1) 3 (pubs [] ops) 3000000 7000000 /\ increasing (pubs [] ops)
+  /\ inc_from 0 ([(4000000, 3#1)] ++ [(12000000, -1#1)]).
+Proof. vm_compute. intuition discriminate. Qed.
+
+Print Assumptions C12_sum_is_integral.
+Print Assumptions C12_avg.
+Print Assumptions C12_conservation.
+Print Assumptions C12_conservation_adapter.
+Print Assumptions C12_later_publications_irrelevant.
+Print Assumptions C12_avg_in_range.
+Print Assumptions C12_area_linear.
+Print Assumptions C12_area_step.
+Print Assumptions C12_eviction_invisible.
